@@ -86,10 +86,24 @@ def identity_prior(x):
     return x
 
 
+class PicklePool:
+    """an in-process stand-in for a process pool: every task and every result is pickled and unpickled as multiprocessing
+    does, so that the workers act on copies (the pool branch of NautilusBound.sample merges the counters of those copies)"""
+
+    def __init__(self, size):
+        self.size = size
+
+    def map(self, func, iterable):
+        import pickle
+        return [pickle.loads(pickle.dumps(pickle.loads(pickle.dumps(func))(pickle.loads(pickle.dumps(a))))) for a in iterable]
+
+
 def make_sampler(kind='gauss', n_dim=2, n_live=100, n_networks=0, n_batch=50, blob=None, vectorized=False,
                  periodic=None, seed=0, filepath=None, resume=True, n_update=None, pool=None, n_like_new_bound=None,
-                 prior=None, pass_dict=None, blobs_dtype=None, nn_kwargs=None):
+                 prior=None, pass_dict=None, blobs_dtype=None, nn_kwargs=None, spool=None):
     from nautilus import Sampler
+    if spool:      # a sampler pool (bounds sample through `spool` workers), likelihood evaluated in-process
+        pool = (None, PicklePool(int(spool)))
     lk = Likelihood(kind, blob=blob, vectorized=vectorized)
     kw = dict(n_dim=n_dim, n_live=n_live, n_networks=n_networks, n_batch=n_batch, vectorized=vectorized,
               seed=seed, filepath=filepath, resume=resume, n_update=n_update, pool=pool,
